@@ -3,5 +3,5 @@
 S=$1; P=$2; T=${3:-quick}
 D=/tmp/seedrun_$S; rm -rf $D; mkdir -p $D; cp -r /repo/etherparse $D/; cp /repo/Cargo.lock /repo/Cargo.toml $D/; rm -rf $D/etherparse/target
 (cd $D && patch -p1 -s < /verif/seeded/$S/patch.diff) || { echo "patch failed"; exit 2; }
-cd /verif && VERIF_REPO=$D bin/check $P --tier $T > /tmp/seedrun_$S.$P.$T.log 2>&1; echo "rc=$? $(grep -c '^VIOLATION' /tmp/seedrun_$S.$P.$T.log) violations"; grep -A2 "^VIOLATION\|^UNDECIDED" /tmp/seedrun_$S.$P.$T.log | grep -v "^--" | cut -c1-260 | head -12; tail -1 /tmp/seedrun_$S.$P.$T.log
+cd /verif && VERIF_ALT_TARGET=$D/ktarget VERIF_REPO=$D bin/check $P --tier $T > /tmp/seedrun_$S.$P.$T.log 2>&1; echo "rc=$? $(grep -c '^VIOLATION' /tmp/seedrun_$S.$P.$T.log) violations"; grep -A2 "^VIOLATION\|^UNDECIDED" /tmp/seedrun_$S.$P.$T.log | grep -v "^--" | cut -c1-260 | head -12; tail -1 /tmp/seedrun_$S.$P.$T.log
 rm -rf $D
